@@ -669,7 +669,14 @@ class SSeq:
             def fn(j):
                 if not is_sym(j) and not is_sym(L):
                     return item if j == L else old(j)
+                c = z3.simplify(to_z3(cmpop('==', j, L)))
+                if z3.is_true(c):
+                    return item
+                if z3.is_false(c):
+                    return old(j)
                 o = old(j)
+                if isinstance(item, (SObj, SFrame, SRow)):
+                    raise Unsupported('symbolic choice between two objects of a list')
                 if isinstance(item, tuple):
                     return tuple(z_ite(cmpop('==', j, L), x, y) for x, y in zip(item, o))
                 return z_ite(cmpop('==', j, L), item, o)
